@@ -6,7 +6,7 @@ from ..check import Check, pmap
 Z, H80, HFF, A, B = R.lit(0), R.lit(0x80), R.lit(0xff), R.lit('a'), R.lit('b')
 ALPHA = bytes([0, 0x80, 0xff, ord('a'), ord('b')])
 ATOMS = [Z, H80, HFF, A, ('set', frozenset(R.ALL - {ord('a')})), ('set', R.DOT), ('set', frozenset(range(0, 128))),
-         ('set', frozenset({0, 0xff})), ('set', frozenset(range(128, 256)))]
+         ('set', frozenset({0, 0xff})), ('set', frozenset(range(128, 256))), ('set', frozenset(R.ALL - {0, ord('a')}))]     # the last renders as [^\x00a]
 UNARY = [lambda x: R.star(x), lambda x: R.plus(x), lambda x: R.opt(x), lambda x: R.rep(x, 2, 2)]
 
 
@@ -22,7 +22,8 @@ def pattern_groups(k, L, action="{ }", prefix="Z", alpha=ALPHA):
     # backing up across a NUL: the longest match ends in (or contains) NUL and a longer attempt fails after it
     sets = [([R.cat(A, Z), R.cat(A, Z, B, B), B], "a\\0 ; a\\0bb ; b"), ([Z, R.cat(Z, A, Z), A], "\\0 ; \\0a\\0 ; a"),
             ([A, R.cat(A, Z, Z, B)], "a ; a\\0\\0b"), ([R.cat(A, B, Z), R.cat(A, B, Z, R.cat(A, A)), A], "ab\\0 ; ab\\0aa ; a"),
-            ([R.plus(Z), R.cat(R.plus(Z), A, B)], "\\0+ ; \\0+ab"), ([R.cat(HFF, Z), R.cat(HFF, Z, HFF, Z, A)], "\\xff\\0 ; \\xff\\0\\xff\\0a")]
+            ([R.plus(Z), R.cat(R.plus(Z), A, B)], "\\0+ ; \\0+ab"),
+            ([R.plus(('set', frozenset(R.ALL - {0, ord('a')}))), Z, A], "[^\\0a]+ ; \\0 ; a"), ([R.cat(HFF, Z), R.cat(HFF, Z, HFF, Z, A)], "\\xff\\0 ; \\xff\\0\\xff\\0a")]
     for i, (rs, lab) in enumerate(sets):
         name = "%sBK%d" % (prefix, i)
         gs.append(H.Group([(name, True)], [H.Rule(r, scs=[name], action=action) for r in rs], name, alpha, L + 2, label="nul-backup:" + lab))
